@@ -112,17 +112,27 @@ class Log:
 
 
 class FakeTransport(asyncio.BaseTransport):
-    def __init__(self, log: Log, index: int):
+    def __init__(self, log: Log, index: int, endpoint: str = "tcp4"):
         super().__init__()
         self.log = log
         self.index = index
+        self.endpoint = endpoint
+        if endpoint == "serial":
+            from vf.mon import transports
+
+            self.serial = transports._SerialPort()
         self.closed = False
         self.lost = False
         self.protocol = None
         self.close_raises_after_loss = False
 
     def get_extra_info(self, name, default=None):
-        return ("virtual-host", 1000 + self.index) if name == "peername" else default
+        if name != "peername":
+            return default
+        from vf.mon import transports
+
+        # a reconnect goes to the same endpoint: every attempt of a scenario reports the same peer
+        return transports.peername(self.endpoint, default)
 
     def is_closing(self):
         return self.closed or self.lost
@@ -171,6 +181,9 @@ FAILURES = (
 )
 
 
+TRAFFIC_READOUT = b"/ISk5\\2MT382-1000\r\n\r\n1-0:1.8.0(000123.456*kWh)\r\n!\r\n"
+
+
 class FakeFactory:
     """outcomes[i] in {'ok','fail','slow_ok','slow_fail'}; lifetimes[i] = None (stays up) or seconds until the peer is lost."""
 
@@ -186,6 +199,9 @@ class FakeFactory:
         self.close_raises_after_loss = False
         self.probe = None
         self.transports: list[FakeTransport] = []
+        # both are functions of the scenario (not of the run), so that the same word behaves the same for every injected close()
+        self.endpoint = "tcp4"
+        self.traffic = False
 
     def make(self):
         async def factory():
@@ -207,7 +223,7 @@ class FakeFactory:
                 if outcome.endswith("fail"):
                     self.log.add("attempt_fail", i)
                     raise FAILURES[i % len(FAILURES)]()
-                transport = FakeTransport(self.log, i)
+                transport = FakeTransport(self.log, i, self.endpoint)
                 transport.close_raises_after_loss = self.close_raises_after_loss
                 protocol = SmartMeterMessageProtocol(asyncio.Queue(), [ModeDReader()])
                 transport.protocol = protocol
@@ -218,6 +234,15 @@ class FakeFactory:
                     self.log.loop.call_later(0.05, self.probe, i)
                 if lifetime is not None:
                     self.log.loop.call_later(lifetime, transport.lose)
+                if self.traffic:
+                    # the meter talks: a well-formed readout shortly after the connection is up (a reader gets selected) and another one later
+                    def deliver(tr=transport, n=i):
+                        if tr.protocol is not None and not tr.closed and not tr.lost:
+                            self.log.add("data_delivered", n)
+                            tr.protocol.data_received(TRAFFIC_READOUT)
+
+                    self.log.loop.call_later(0.01, deliver)
+                    self.log.loop.call_later(1.0, deliver)
                 return transport, protocol
             except asyncio.CancelledError:
                 self.log.add("attempt_cancelled", i)
@@ -226,9 +251,23 @@ class FakeFactory:
         return factory
 
 
+STATS: dict[str, int] = {}
+
+
+def report(ctx) -> None:
+    """Copy what the scenarios of this process looked like into the evidence counters."""
+    for k, v in STATS.items():
+        if k.startswith("endpoint:"):
+            ctx.seen("transport_endpoints", f"{k[9:]}")
+            ctx.count("scenarios_with_endpoint_" + k[9:], v)
+        else:
+            ctx.count(k, v)
+    STATS.clear()
+
+
 def run_scenario(outcomes, lifetimes, horizon: float, close_at=None, config=None, default_outcome="fail",
                  default_lifetime=None, use_clock_shim: bool = True, track_tasks: bool = True, close_raises_after_loss: bool = False,
-                 after_close: float = 200.0, epoch=None):
+                 after_close: float = 200.0, epoch=None, restart_after: float | None = None):
     """Run ConnectionManager.connect_loop() on a fresh virtual loop.
 
     close_at: None | ("iteration", k, position) | ("time", t) - position: 'first' | 'last' | int index into the ready queue.
@@ -241,6 +280,13 @@ def run_scenario(outcomes, lifetimes, horizon: float, close_at=None, config=None
     log = Log(loop)
     factory = FakeFactory(log, outcomes, lifetimes, default_outcome, default_lifetime)
     factory.close_raises_after_loss = close_raises_after_loss
+    import zlib
+
+    from vf.mon import transports
+
+    key = zlib.crc32(repr((list(outcomes), list(lifetimes), sorted((config or {}).items()), default_outcome, default_lifetime)).encode())
+    factory.endpoint = transports.KINDS[1:][key % (len(transports.KINDS) - 1)]
+    factory.traffic = (key >> 8) % 2 == 1
     shim = None
     saved = mc.datetime
     if use_clock_shim:
@@ -294,6 +340,15 @@ def run_scenario(outcomes, lifetimes, horizon: float, close_at=None, config=None
 
         async def main():
             task = asyncio.ensure_future(mgr.connect_loop())
+            state["task"] = task
+
+            def start_again():
+                # the application calls connect_loop() again on the same manager object (close() is not the end of its life)
+                log.add("loop_restarted")
+                state["closed"] = False
+                state["returned"] = False
+                state["task"] = asyncio.ensure_future(mgr.connect_loop())
+                state["task"].add_done_callback(returned)
 
             def returned(_t):
                 if state.get("harness_cancel"):
@@ -301,6 +356,9 @@ def run_scenario(outcomes, lifetimes, horizon: float, close_at=None, config=None
                     return
                 state["returned"] = True
                 log.add("loop_returned")
+                if restart_after is not None and state["closed"] and not state.get("restarted"):
+                    state["restarted"] = True
+                    loop.call_later(restart_after, start_again)
 
             task.add_done_callback(returned)
             if close_at is not None and close_at[0] == "time":
@@ -313,6 +371,7 @@ def run_scenario(outcomes, lifetimes, horizon: float, close_at=None, config=None
                 await asyncio.sleep(state["t_close"] + after_close - loop.vtime)
             log.add("horizon")
             info["tasks_at_horizon"] = len(asyncio.all_tasks(loop))
+            task = state["task"]
             if not task.done():
                 state["harness_cancel"] = True
                 task.cancel()
@@ -338,5 +397,10 @@ def run_scenario(outcomes, lifetimes, horizon: float, close_at=None, config=None
             pass
         loop.close()
         asyncio.set_event_loop(None)
+    result.update(endpoint=factory.endpoint, traffic=factory.traffic)
+    STATS["endpoint:" + factory.endpoint] = STATS.get("endpoint:" + factory.endpoint, 0) + 1
+    if factory.traffic:
+        STATS["scenarios_in_which_the_meter_sends_readouts"] = STATS.get("scenarios_in_which_the_meter_sends_readouts", 0) + 1
+        STATS["readouts_delivered_to_connected_protocols"] = STATS.get("readouts_delivered_to_connected_protocols", 0) + sum(1 for e in log.events if e[2] == "data_delivered")
     result.update(events=log.events, iterations=loop.iteration, shim_calls=shim.calls if shim else 0, **info)
     return result
